@@ -112,6 +112,59 @@ def do_import(wt, prop, tag=""):
       f.write("\n")
 
 
+def do_import_refactor(wt, prop):
+  """Behaviour-preserving refactorings (sub-agent deliverables): confirm the
+  baseline, run the property's check (and, with --all-checks, every check)
+  against the refactored tree and expect SILENCE; store under refactors/."""
+  wt = os.path.abspath(wt)
+  for patch in sorted(glob.glob(os.path.join(wt, "SEED", "patch*.diff"))):
+    k = os.path.basename(patch)[5:-5]
+    notes = os.path.join(wt, "SEED", "notes%s.md" % k)
+    rid = "%s-ref%s" % (prop.lower(), k)
+    print("==", rid)
+    sh(["git", "checkout", "--", "."], cwd=wt)
+    rc, out = sh(["git", "apply", patch], cwd=wt)
+    if rc:
+      print("  patch does not apply:", out[-300:])
+      continue
+    try:
+      rc_imp, _ = sh([PY, "-W", "ignore", "-c", "import audiolazy"],
+                     env=dict(os.environ, PYTHONPATH=wt))
+      rc_base, out_base = sh(["python3", BASELINE_CHECK, wt])
+      props = ALL_PROPS if ALLCHECKS else [prop]
+      ran = []
+      for p in props:
+        rc_chk, keys = run_check(p, wt)
+        ran.append({"cmd": "VERIF_REPO=<refactored tree> ./check %s" % p,
+                    "exit": rc_chk, "keys": keys})
+        print("  check %s: exit %s %s" % (p, rc_chk, "; ".join(keys)[:300]))
+    finally:
+      sh(["git", "checkout", "--", "."], cwd=wt)
+    ok = rc_imp == 0 and rc_base == 0
+    print("  import ok=%s baseline=%s" % (rc_imp == 0,
+                                          out_base.strip().splitlines()[-1][:70]))
+    if not ok:
+      print("  NOT KEPT (baseline broken)")
+      continue
+    dst = os.path.join(HERE, "refactors", rid)
+    os.makedirs(dst, exist_ok=True)
+    shutil.copy(patch, os.path.join(dst, "patch.diff"))
+    if os.path.exists(notes):
+      shutil.copy(notes, os.path.join(dst, "notes.md"))
+    meta = {"id": rid, "property": prop, "kind": "behaviour-preserving "
+            "refactoring written by a fresh sub-agent (property text + scratch "
+            "worktree only); the checks must stay silent on it",
+            "baseline": out_base.strip().splitlines()[-1], "ran": ran,
+            "silent": all(r["exit"] == 0 for r in ran)}
+    with open(os.path.join(dst, "meta.json"), "w") as f:
+      json.dump(meta, f, indent=1)
+      f.write("\n")
+
+
+ALL_PROPS = ["C%02d" % i for i in range(1, 21)]
+ALLCHECKS = False
+
+
 def first_para(path):
   if not os.path.exists(path):
     return ""
@@ -162,7 +215,7 @@ def do_run(ids, tier, all_checks, props_extra):
 
 def main():
   ap = argparse.ArgumentParser()
-  ap.add_argument("cmd", choices=["import", "run"])
+  ap.add_argument("cmd", choices=["import", "run", "import-refactor"])
   ap.add_argument("args", nargs="*")
   ap.add_argument("--tier", default="quick")
   ap.add_argument("--all-checks", action="store_true")
@@ -173,7 +226,11 @@ def main():
   a = ap.parse_args()
   global RECORD
   RECORD = a.record
-  if a.cmd == "import":
+  global ALLCHECKS
+  ALLCHECKS = a.all_checks
+  if a.cmd == "import-refactor":
+    do_import_refactor(a.args[0], a.args[1].upper())
+  elif a.cmd == "import":
     do_import(a.args[0], a.args[1].upper(), a.tag)
   else:
     do_run(a.args, a.tier, a.all_checks, a.also)
